@@ -20,13 +20,17 @@ def run(tier, seed, t0):
     m = Merged(); wd = R.workdir(ID)
     n = T(tier, 320, 80000)
     # a different PRNG stream than C01 (first=10^6) so that the two checks do not replay the same histories
-    R.run_inv(Inv("remesh", n, "plain", args=["--oracle=c11", "--max_faces=%d" % T(tier, 400, 1500), "--max_passes=%d" % T(tier, 14, 25)], first=1000000, timeout=T(tier, 1500, 6 * 3600)), seed, wd, m)
+    R.run_inv(Inv("remesh", n, "plain", args=["--oracle=c11", "--max_faces=%d" % T(tier, 400, 1500), "--max_passes=%d" % T(tier, 14, 25), "--cpu_limit=%d" % T(tier, 120, 400)], first=1000000, timeout=T(tier, 1500, 6 * 3600)), seed, wd, m)
+    # many cells refined at once (refine_meshes, 16 threads) against the same cells refined one after another
+    npar = T(tier, 12, 600)
+    R.run_inv(Inv("remesh_par", npar, "plain", threads=16, shards=1, first=5000000, timeout=T(tier, 1500, 6 * 3600), tag="remesh_par/plain/t16"), seed, wd, m)
     # time-outs inside refinement are this property's violations; other crashes stay inconclusive
     for v in m.violations:
         if v.get("timeout"):
             v["crash"] = False; v["key"] = "c11.pass_does_not_return"
     floors = {
-        "nontrivial_histories": (m.nontrivial, 0.5 * n),
+        "nontrivial_histories": (m.nontrivial, 0.4 * n),
+        "cells_refined_concurrently": (m.bins.get("parallel_refinement_cells", 0), 40 * npar),
         "splits": (m.bins.get("splits", 0), 1000), "merges": (m.bins.get("merges", 0), 1000), "swaps_done": (m.bins.get("swaps_done", 0), 20),
         "conforming_meshes_checked": (m.bins.get("conforming_checked", 0), 3), "repeated_pass_on_conforming_mesh": (m.bins.get("repeated_pass_on_conforming_mesh", 0), 40), "passes": (m.bins.get("passes", 0), 500),
     }
